@@ -330,6 +330,73 @@ func main() {
 	r := hx.Rng(*seed, 0)
 	// snapshot sizes around the powers of two (batching / chunking boundaries of a recovery): recover, which is then
 	// acknowledged, and lose power at once; the reopened machine must be at the snapshot
+	// a recovery that fails half-way (the snapshot stream breaks off) must leave the machine where it was: it keeps
+	// serving, and it reopens at its acknowledged state after a restart or a power loss
+	for _, mode := range []string{"restart", "power-loss"} {
+		ents := map[string]string{}
+		for i := 0; i < 200; i++ {
+			ents[fmt.Sprintf("s%04d", i)] = fmt.Sprintf("val%d", i)
+		}
+		big := snapshotBytes(ents, 20000)
+		for _, cut := range []int{len(big) / 2, len(big) - 1, 9} {
+			mem := vfs.NewStrictMem()
+			res := func() (res string) {
+				defer func() {
+					if r := recover(); r != nil {
+						res = fmt.Sprintf("panic-without-crash:%v", r)
+					}
+				}()
+				d := tests.NewDiskKVTest(1, 1).(*tests.DiskKVTest)
+				d.SetTestFS(mem)
+				if _, err := d.Open(nil); err != nil {
+					return "open-error:" + err.Error()
+				}
+				for i := uint64(1); i <= 3; i++ {
+					if _, err := d.Update([]sm.Entry{{Index: i, Cmd: enc("k0", fmt.Sprintf("v%d", i))}}); err != nil {
+						return "update-error:" + err.Error()
+					}
+				}
+				if err := d.RecoverFromSnapshot(bytes.NewReader(big[:cut]), nil); err == nil {
+					return "" // a cut the decoder does not notice: nothing to judge
+				}
+				if v, _ := d.Lookup([]byte("k0")); v == nil || string(v.([]byte)) != "v3" {
+					return fmt.Sprintf("data-mismatch: after a failed recovery the machine answers %v for k0", v)
+				}
+				if mode == "power-loss" {
+					mem.SetIgnoreSyncs(true)
+				}
+				d.Close()
+				if mode == "power-loss" {
+					mem.ResetToSyncedState()
+					mem.SetIgnoreSyncs(false)
+				}
+				d2 := tests.NewDiskKVTest(1, 1).(*tests.DiskKVTest)
+				d2.SetTestFS(mem)
+				idx, err := d2.Open(nil)
+				if err != nil {
+					return "reopen-error:" + err.Error()
+				}
+				defer d2.Close()
+				if idx < 3 {
+					return fmt.Sprintf("index-below-acknowledged: applied index %d after a failed recovery and a %s, 3 was acknowledged", idx, mode)
+				}
+				if v, _ := d2.Lookup([]byte("k0")); v == nil || string(v.([]byte)) != "v3" {
+					return fmt.Sprintf("data-mismatch: k0 is %v after a failed recovery and a %s", v, mode)
+				}
+				return ""
+			}()
+			run.Count("case:failed_recovery_then_" + mode)
+			if res != "" {
+				sig := strings.SplitN(res, ":", 2)[0]
+				if strings.HasPrefix(res, "panic-without-crash") {
+					sig = "panic"
+				}
+				run.Violate(hx.Violation{Property: "C16", Clause: "failed_recovery_harmless", Signature: sig + "-after-failed-recovery", Seq: -cut,
+					What: fmt.Sprintf("snapshot stream cut after %d of %d bytes, then %s: %s", cut, len(big), mode, res),
+					Ops:  map[string]interface{}{"sequence": "open; 3 updates; RecoverFromSnapshot(truncated image) fails; " + mode + "; reopen", "cut": cut}})
+			}
+		}
+	}
 	for _, nk := range []int{1, 31, 32, 62, 63, 64, 65, 126, 127, 128, 129, 255, 256, 257, 1000} {
 		ents := map[string]string{}
 		for i := 0; i < nk; i++ {
